@@ -1416,9 +1416,18 @@ def _concatenate_Hamiltonian(
             # unique
             pulse_pos = [bisect.bisect(pulse_idx, hashed_opers.index(op)) for op in oper]
             identifier_pos = [concat_hashed_opers.index(op) for op in oper]
-            for i, p in zip(identifier_pos, pulse_pos):
+            for i, p, op in zip(identifier_pos, pulse_pos, oper):
                 concat_identifiers[i] = concat_identifiers[i] + f'_{p}'
-                pulse_identifier_mapping[p].update({identifier_str: concat_identifiers[i]})
+                # Update the mapping of every pulse that holds this operator, not only the first
+                for ind, hashed_oper in enumerate(hashed_opers):
+                    if hashed_oper == op:
+                        pulse_identifier_mapping[bisect.bisect(pulse_idx, ind)].update(
+                            {identifier_str: concat_identifiers[i]}
+                        )
+
+    if len(set(concat_identifiers)) != len(concat_identifiers):
+        raise ValueError(f'Cannot disambiguate clashing {kind} identifiers, the suffixed identifier '
+                         + f'is already in use. Please choose unique {kind} identifiers!')
 
     # Sort everything by the identifiers
     sort_idx = np.argsort(concat_identifiers)
